@@ -79,9 +79,9 @@ func scRegisterType(s Scope, name string, ftype FType) {
 
 func scRegisterRecFac(s Scope, name string, fac RecordFactory) {
 	sdic := SCSDict(s)
-	frt.IfOnly(frt.OpNot(dict.ContainsKey(sdic.RecSeqMap, name)), (func() {
-		frt.PipeUnit(frt.Pipe(dict.Keys(sdic.RecSeqMap), slice.Length), (func(_r0 int) { dict.Add(sdic.RecSeqMap, name, _r0) }))
-	}))
+	cnt, _ := frt.Destr2(dict.TryFind(sdic.RecSeqMap, "#count"))
+	dict.Add(sdic.RecSeqMap, "#count", (cnt + 1))
+	dict.Add(sdic.RecSeqMap, name, (cnt + 1))
 	dict.Add(sdic.RecFacMap, name, fac)
 	dict.Add(sdic.TypeFacMap, name, (func(_r0 []FType) FType { return GenRecordFType(fac, _r0) }))
 }
